@@ -116,8 +116,59 @@ def string_case(s, slot, declared):
     return None
 
 
+def _parrays():
+    import numpy as np
+    return {"nested list of ints and floats": [[0, 0.5, 1]], "nested list of ints": [[1, 2, 3]], "tuple of rows": ((1.5, 2.5), (3.5, 4.0)), "list with complex": [[1j, 2, 0.5]],
+            "int32 array": np.array([[1, 2]], dtype=np.int32), "float32 array": np.array([[0.5, 1.5]], dtype=np.float32), "complex64 array": np.array([[0.5 + 1j, 2]], dtype=np.complex64),
+            "list of float then ints": [[0.5, 1, 2], [3, 4, 5]], "transposed view": np.arange(6).reshape(3, 2).T * 0.5}
+
+
+def parray_case(name):
+    """API-built tdm program whose p-array was stored as a nested list / tuple / narrow NumPy type; it must come back with its
+    values, under its name, still referenced by name"""
+    import numpy as np
+    import blackbird
+    import blackbird.auxiliary as aux
+    v = _parrays()[name]
+    prog = blackbird.BlackbirdProgram(name="parr")
+    prog._type["name"] = "tdm"
+    prog._type["options"] = {"temporal_modes": 2}
+    prog._var["p0"] = v
+    prog._operations.append({"op": "Gate", "args": ["p0", 0.5], "kwargs": {"k": "p0"}, "modes": [0]})
+    base = {"text": "tdm program built through the API with p0 = %r (%s)" % (v, name), "values": []}
+    try:
+        t = blackbird.dumps(prog)
+    except Exception as e:  # noqa
+        return dict(base, what="dumps raises %s" % type(e).__name__, observed="%s: %s" % (type(e).__name__, e), expected="a script")
+    aux._VAR.clear()
+    aux._PARAMS.clear()
+    try:
+        q = blackbird.loads(t)
+    except Exception as e:  # noqa
+        return dict(base, what="the serialised script is rejected: %s" % type(e).__name__, observed="%s: %s\n%s" % (type(e).__name__, str(e)[:200], t), expected="re-loads")
+    finally:
+        aux._VAR.clear()
+        aux._PARAMS.clear()
+    want = np.array(v)
+    got = q.variables.get("p0")
+    if not isinstance(got, np.ndarray) or got.shape != want.shape or not np.array_equal(got, want) or got.dtype.kind != want.dtype.kind:
+        return dict(base, what="p-array p0 is not preserved", observed="%r\n%s" % (got, t), expected=repr(want))
+    o = q.operations[0]
+    if o["args"][0] != "p0" or o["kwargs"].get("k") != "p0":
+        return dict(base, what="references to p0 are not preserved", observed=repr(o), expected="'p0' by name")
+    return None
+
+
 def run_job(job):
     kind, spec = job
+    if kind == "parr":
+        out = {"spec": ("parr", spec), "result": "holds", "paths": 1, "stats": None, "funcs": [], "reach": 1, "validated": 1,
+               "text": "p-array stored through the API as %s" % spec, "name": "p-array via API: %s" % spec}
+        r = parray_case(spec)
+        if r:
+            r["symbolic_what"] = r["what"]
+            out.update(result="violation", cex=r)
+        return out
     if kind == "load":
         r = _script.run_spec((MOD, spec))
         r["spec"] = ("load", spec)
@@ -140,6 +191,8 @@ def run_job(job):
 
 
 def finding_key(r):
+    if r["spec"][0] == "parr":
+        return "p-array via API %s: %s" % (r["spec"][1], r["cex"]["what"].split(":")[0])
     if r["spec"][0] == "str":
         s, slot, declared = r["spec"][1]
         return "string %r declared=%s: %s" % (s, declared, r["cex"]["what"].split(":")[0])
@@ -158,6 +211,8 @@ print(r["text"]); print("what    :", r["what"]); print("observed:", r["observed"
 
 def replay_src(r):
     kind, spec = r["spec"]
+    if kind == "parr":
+        return REPLAY_STR.replace("c15.string_case(*%(spec)r)", "c15.parray_case(%(spec)r)") % {"root": common.ROOT, "spec": spec}
     if kind == "str":
         return REPLAY_STR % {"root": common.ROOT, "spec": spec}
     if kind == "load":
@@ -179,6 +234,7 @@ def main():
     ]
     jobs = [("load", s) for s in SCRIPTS] + [("rt", s) for s in SCRIPTS]
     jobs += [("str", (s, slot, d)) for s in STRINGS for slot in ("pos", "kw") for d in (False, True)]
+    jobs += [("parr", n) for n in _parrays()]
     results = U.run_parallel(run_job, jobs)
     U.collect(rep, results, key_fn=finding_key, replay_fn=replay_src,
               sample_fn=lambda r: {"case": r.get("name"), "script": r.get("text"), "paths": r["paths"]})
